@@ -42,7 +42,9 @@ def cases(draw):
                      "script": draw(st.lists(row, min_size=b * (p + 1), max_size=b * (p + 1)))})
     # the search space passed along (the scripted generator ignores it): its size may be smaller than the history
     return {"d": d, "history": hist, "batch": b, "passes": p, "script": script, "step": step, "offset": off, "negzero": negz,
-            "more": more, "grid_points": draw(st.sampled_from([11, 11, 2, 3, 1001]))}
+            "more": more, "grid_points": draw(st.sampled_from([11, 11, 2, 3, 1001])),
+            # a long history: the drawn rows come first, followed by filler rows (which repeat the alphabet's rows cyclically)
+            "long_history": draw(st.sampled_from([0] * 12 + [1023, 1024, 1025, 2049, 3000]))}
 
 
 def _model(hist, script, b, p):
@@ -84,11 +86,16 @@ def check_dedup(ctx: Ctx, case):
     sub = "dedup"
     d, b, p = case["d"], case["batch"], case["passes"]
     step, off = case.get("step", 1.0), case.get("offset", 0.0)
-    hist = [tuple(off + float(x) * step for x in r) for r in case["history"]]
+    raw_hist = [list(r) for r in case["history"]]
+    if case.get("long_history"):
+        kk = max([2] + [x + 1 for r in case["history"] + case["script"] for x in r])
+        raw_hist += [[(i // kk ** j) % kk for j in range(d)] for i in range(case["long_history"] - len(raw_hist))]
+    hist = [tuple(off + float(x) * step for x in r) for r in raw_hist]
     script = [tuple(off + float(x) * step for x in r) for r in case["script"]]
     for pos in case.get("negzero", []):
-        rows = hist if pos < len(hist) else script
-        i = pos if pos < len(hist) else pos - len(hist)
+        nh = len(case["history"])
+        rows = hist if pos < nh else script
+        i = pos if pos < nh else pos - nh
         if i < len(rows):
             rows[i] = tuple(-0.0 if v == 0.0 else v for v in rows[i])
     requested = []
@@ -114,7 +121,7 @@ def check_dedup(ctx: Ctx, case):
     cnt0 = Counter(hist) + Counter(first)
     first_has_repeat = any(cnt0[r] > 1 for r in first)
     classes = [f"P={p}" if p == 0 else "P>0", f"step={step:g}"] + (["negative-zero"] if case.get("negzero") else []) + \
-        (["history>=space_size"] if len(hist) >= gp ** d else [])
+        (["history>=space_size"] if len(hist) >= gp ** d else []) + (["history>1024-rows"] if len(hist) > 1024 else [])
     if any(Counter(first)[r] > 1 for r in first):
         classes.append("in-batch-repeat")
     if any(r in set(hist) for r in first):
